@@ -47,51 +47,79 @@ EINSUMS = [
 ]
 
 
-def family(tier):
+EXTRA = [
+    # (label, declaration, expression, partitioning lines under the output, loop order)
+    ("index math over a 3-level shape split", {"A": "[K]", "Z": "[M]"}, "Z[m] = A[2 * m]",
+     ["M: [uniform_shape(10), uniform_shape(5)]", "K: [follow(M)]"], ["M2", "M1", "M0"]),
+    ("shape then occupancy split", {"A": "[K, M]", "B": "[K, N]", "Z": "[M, N]"}, "Z[m, n] = A[k, m] * B[k, n]",
+     ["M: [uniform_shape(20), uniform_occupancy(A.5)]"], ["M2", "M1", "M0", "N", "K"]),
+    ("two occupancy splits", {"A": "[K, M]", "B": "[K, N]", "Z": "[M, N]"}, "Z[m, n] = A[k, m] * B[k, n]",
+     ["K: [uniform_occupancy(B.6), uniform_occupancy(B.3)]"], ["M", "K2", "N", "K1", "K0"]),
+    ("convolution", {"I": "[W]", "F": "[S]", "O": "[Q]"}, "O[q] = I[q + s] * F[s]", [], ["Q", "S"]),
+    ("tiled convolution", {"I": "[W]", "F": "[S]", "O": "[Q]"}, "O[q] = I[q + s] * F[s]",
+     ["Q: [uniform_shape(4)]", "W: [follow(Q)]"], ["Q1", "Q0", "S"]),
+]
+
+
+def _bases():
+    """(label, yaml without spacetime, output name, loop order)"""
     out = []
     for decl, expr, ranks in EINSUMS:
         outn = expr.split("[")[0]
         for part in (None, ranks[-1]):
-            lo_sets = []
             if part is None:
                 lo_sets = [list(ranks), list(reversed(ranks))]
+                plines = []
             else:
                 lv = [part + "1", part + "0"]
                 others = [r for r in ranks if r != part]
                 lo_sets = [[lv[0]] + others + [lv[1]], others + lv]
+                plines = ["%s: [uniform_shape(4)]" % part]
             for lo in lo_sets:
-                n = len(lo)
-                splits = []
-                for k in range(0, min(2, n) + 1):
-                    for space in itertools.combinations(lo, k):
-                        splits.append(space)
-                for si, space in enumerate(splits):
-                    if tier != "thorough" and si % 2 and len(space) == 2:
-                        continue
-                    time_ = [r for r in lo if r not in space]
-                    for style in ("pos", "coord", "mixed"):
-                        for slip in (False, True):
-                            def st(r, i):
-                                s = style if style != "mixed" else ("pos" if i % 2 else "coord")
-                                return r if s == "pos" and i % 3 == 0 else r + "." + s
-                            y = "einsum:\n  declaration:\n" + "".join("    %s: %s\n" % kv for kv in decl.items())
-                            y += "  expressions:\n    - %s\nmapping:\n" % expr
-                            if part is not None:
-                                y += "  partitioning:\n    %s:\n      %s: [uniform_shape(4)]\n" % (outn, part)
-                            y += "  loop-order:\n    %s: [%s]\n" % (outn, ", ".join(lo))
-                            base = y
-                            y += "  spacetime:\n    %s:\n      space: [%s]\n      time: [%s]\n" % (
-                                outn, ", ".join(st(r, i) for i, r in enumerate(space)),
-                                ", ".join(st(r, i + 1) for i, r in enumerate(time_)))
-                            if slip:
-                                y += "      opt: slip\n"
-                            styles = {}
-                            for i, r in enumerate(space):
-                                styles[r] = "coord" if st(r, i).endswith(".coord") else "pos"
-                            for i, r in enumerate(time_):
-                                styles[r] = "coord" if st(r, i + 1).endswith(".coord") else "pos"
-                            out.append((base, y, {"einsum": expr, "loop_order": lo, "space": list(space), "style": style,
-                                                  "styles": styles, "slip": slip}))
+                out.append((expr, decl, expr, plines, lo))
+    for label, decl, expr, plines, lo in EXTRA:
+        out.append((label, decl, expr, plines, lo))
+    res = []
+    for label, decl, expr, plines, lo in out:
+        outn = expr.split("[")[0]
+        y = "einsum:\n  declaration:\n" + "".join("    %s: %s\n" % kv for kv in decl.items())
+        y += "  expressions:\n    - %s\nmapping:\n" % expr
+        if plines:
+            y += "  partitioning:\n    %s:\n" % outn + "".join("      %s\n" % pl for pl in plines)
+        y += "  loop-order:\n    %s: [%s]\n" % (outn, ", ".join(lo))
+        res.append((label, y, outn, lo))
+    return res
+
+
+def family(tier):
+    out = []
+    for label, base, outn, lo in _bases():
+        n = len(lo)
+        splits = []
+        for k in range(0, min(2, n) + 1):
+            for space in itertools.combinations(lo, k):
+                splits.append(space)
+        for si, space in enumerate(splits):
+            if tier != "thorough" and si % 2 and len(space) == 2:
+                continue
+            time_ = [r for r in lo if r not in space]
+            for style in ("pos", "coord", "mixed"):
+                for slip in (False, True):
+                    def st(r, i):
+                        s = style if style != "mixed" else ("pos" if i % 2 else "coord")
+                        return r if s == "pos" and i % 3 == 0 else r + "." + s
+                    y = base + "  spacetime:\n    %s:\n      space: [%s]\n      time: [%s]\n" % (
+                        outn, ", ".join(st(r, i) for i, r in enumerate(space)),
+                        ", ".join(st(r, i + 1) for i, r in enumerate(time_)))
+                    if slip:
+                        y += "      opt: slip\n"
+                    styles = {}
+                    for i, r in enumerate(space):
+                        styles[r] = "coord" if st(r, i).endswith(".coord") else "pos"
+                    for i, r in enumerate(time_):
+                        styles[r] = "coord" if st(r, i + 1).endswith(".coord") else "pos"
+                    out.append((base, y, {"einsum": label, "loop_order": lo, "space": list(space), "style": style,
+                                          "styles": styles, "slip": slip}))
     return out
 
 
@@ -175,6 +203,22 @@ def stamp_problems(stamp, desc, lines, line):
     return probs
 
 
+def _displayed_rank_count(var, lines, decl_ranks):
+    """number of ranks of the tensor object bound to `var` when the canvas is created: the rank ids it last received
+    (Tensor(...)/swizzleRanks/fromFiber/setRankIds), else - a user-supplied input - its declared ranks"""
+    n = None
+    for l in lines:
+        if "createCanvas(" in l:
+            break
+        m = re.match(r"\s*%s = .*rank_ids=\[([^\]]*)\]" % re.escape(var), l) or \
+            re.match(r"\s*%s\.setRankIds\(rank_ids=\[([^\]]*)\]" % re.escape(var), l)
+        if m:
+            n = len([x for x in m.group(1).split(",") if x.strip()])
+    if n is None:
+        n = len(decl_ranks.get(var.split("_", 1)[0], []))
+    return n
+
+
 def check_one(base_yaml, st_yaml, desc):
     from teaal.parse import Einsum, Mapping
     from teaal.trans.hifiber import HiFiber
@@ -187,8 +231,16 @@ def check_one(base_yaml, st_yaml, desc):
     except ValueError as e:
         return "skip", "spacetime mapping rejected: %s" % str(e)[:80], None
     probs = []
-    if erase(disp) != plain:
+    if erase(disp) != erase(plain):
         probs.append("erasing the display statements does not give the program compiled without spacetime")
+    try:
+        from props import C06
+        user, _outs = C06.user_names(st_yaml)
+        cl = C06.closed(disp, user)
+        if cl and not C06.closed(plain, user):
+            probs.append("with the display the program is no longer closed: " + cl[0])
+    except Exception:      # noqa
+        pass
     lines = disp.split("\n")
     upd = [i for i, l in enumerate(lines) if re.search(r"_ref (\+|<<)= ", l) or re.search(r"_ref = ", l)]
     act = [i for i, l in enumerate(lines) if "canvas.addActivity(" in l]
@@ -201,6 +253,7 @@ def check_one(base_yaml, st_yaml, desc):
             probs.append("addActivity at line %d does not directly follow the update at line %d" % (a + 1, u + 1))
     # arity of the access tuples
     m = re.search(r"canvas = createCanvas\((.*)\)", disp)
+    decl_ranks = Einsum.from_str(base_yaml).get_declaration()
     if m:
         names = [x.strip() for x in m.group(1).split(",")]
         for l in (lines[i] for i in act):
@@ -210,7 +263,7 @@ def check_one(base_yaml, st_yaml, desc):
                 probs.append("addActivity has %d access tuples for %d displayed tensors" % (len(tuples), len(names)))
                 continue
             for nm, t in zip(names, tuples):
-                nr = len(re.findall(r"[A-Z][0-9]*", nm.split("_", 1)[1])) if "_" in nm else 0
+                nr = _displayed_rank_count(nm, lines, decl_ranks)
                 arity = len(t.elts) if isinstance(t, ast.Tuple) else 1
                 if arity != nr:
                     probs.append("%s is displayed with %d coordinates for %d ranks" % (nm, arity, nr))
